@@ -335,6 +335,38 @@ def load_all(root: str) -> Dict[Tuple[str, str], FnContract]:
         rel = os.path.relpath(p, root)
         for c in parse_vc(rel, open(p).read()):
             if c.key in out:
-                raise ContractError('%s: duplicate contract for %s' % (rel, c.key,))
-            out[c.key] = c
+                out[c.key] = _merge(out[c.key], c)
+            else:
+                out[c.key] = c
     return out
+
+
+def _merge(a: FnContract, b: FnContract) -> FnContract:
+    """Two blocks for one function (generated common bundle + hand-written proof annotations) are merged."""
+    labels = {c.label for c in a.sig.clauses}
+    for c in b.sig.clauses:
+        if c.label in labels:
+            raise ContractError('%s:%d: clause label %s defined twice for %s' % (c.vc_file, c.vc_line, c.label, a.item))
+    # keep `requires` before `ensures`
+    req = [c for c in a.sig.clauses + b.sig.clauses if c.kind == 'requires']
+    oth = [c for c in a.sig.clauses + b.sig.clauses if c.kind != 'requires']
+    # renumber anonymous labels to stay unique
+    seen = {}
+    for c in req + oth:
+        if re.match(r'^(requires|ensures)\.\d+$', c.label):
+            k = seen.get(c.kind, 0)
+            seen[c.kind] = k + 1
+            c.label = '%s.%d' % (c.kind, k)
+    a.sig.clauses = req + oth
+    a.serves = sorted(set(a.serves) | set(b.serves))
+    a.ret = a.ret or b.ret
+    a.attrs = a.attrs + [x for x in b.attrs if x not in a.attrs]
+    a.mutself = a.mutself or b.mutself
+    a.loops.update(b.loops)
+    a.closures.update(b.closures)
+    a.inserts += b.inserts
+    a.replaces += b.replaces
+    a.stubsig = a.stubsig or b.stubsig
+    a.candidates += b.candidates
+    a.notes += b.notes
+    return a
